@@ -324,7 +324,9 @@ func (d *FetchDriver) Run(fn func()) {
 			acts = []act{{2, 0}}
 		}
 		if len(acts) == 0 {
-			if d.Cancel != nil && !d.Cancelled {
+			// nothing can be completed: legitimate only while requests that never answer are outstanding
+			// (then the caller's cancellation/timeout is the way out); otherwise the fetch is stuck
+			if d.Cancel != nil && !d.Cancelled && q.stalled > 0 {
 				acts = []act{{2, 0}}
 			} else {
 				Tainted.Store(true)
